@@ -437,6 +437,9 @@ def run(ck, tier):
     ck.assume('completeness / exactly-once over all identities and whole continuation chains is not decided; these are the structural conditions it rests on')
     from .. import ownership as _own
     ck.guard(_own.rule_instance_owned, ck, cx, 'R6', _own.IDENTITY, 'objects configured for one device identification are returned for another', 1)
+    from .. import ownership as _own2
+    ck.rule('R7', 'no unsound memoisation (a caching decorator on a method, or on a function that returns a mutable container) in the modules this property rests on')
+    ck.guard(_own2.rule_no_unsafe_memo, ck, cx, 'R7', ('pymodbus.device', 'pymodbus.mei_message'), 'the objects returned are those cached for another request or identity')
     return cx.idx
 
 
